@@ -25,6 +25,8 @@ struct Side {
 
 struct World {
     Side a, b;
+    QUdpSocket stunSrv;   // a STUN server of the harness (own encoder): agents that are given it gather server-reflexive candidates
+    int stunRequests = 0;
     QUdpSocket relayA, relayB, attacker;  // relayA faces A (A's view of B's candidate), relayB faces B
     quint16 portA = 0, portB = 0;
     QJsonArray relayLog, attackerRx;
@@ -94,8 +96,44 @@ int main(int argc, char **argv)
             w->b.ice->setIceControlling(!aControls);
             w->a.ice->addComponent(1);
             w->b.ice->addComponent(1);
+            if (in["stun"].toBool()) {
+                World *wq = w.get();
+                w->stunSrv.bind(QHostAddress(QHostAddress::LocalHost), quint16(0));
+                QObject::connect(&w->stunSrv, &QUdpSocket::readyRead, [wq]() {
+                    while (wq->stunSrv.hasPendingDatagrams()) {
+                        QByteArray d(int(wq->stunSrv.pendingDatagramSize()), 0);
+                        QHostAddress h;
+                        quint16 p;
+                        wq->stunSrv.readDatagram(d.data(), d.size(), &h, &p);
+                        if (!World::isStun(d) || quint8(d[0]) != 0x00 || quint8(d[1]) != 0x01) continue;
+                        wq->stunRequests++;
+                        // Binding success with XOR-MAPPED-ADDRESS 192.0.2.55:<source port> (a NAT that maps the host address to a public one)
+                        QByteArray r = QByteArray::fromHex("0101000c2112a442") + d.mid(8, 12);
+                        const quint16 xport = p ^ 0x2112;
+                        r += QByteArray::fromHex("00200008" "0001");
+                        r += char(xport >> 8);
+                        r += char(xport & 0xff);
+                        r += QByteArray::fromHex("e112a675");  // 192.0.2.55 ^ 0x2112a442
+                        wq->stunSrv.writeDatagram(r, h, p);
+                    }
+                });
+                const QList<QPair<QHostAddress, quint16>> srv { { QHostAddress(QHostAddress::LocalHost), w->stunSrv.localPort() } };
+                w->a.ice->setStunServers(srv);
+                w->b.ice->setStunServers(srv);
+            }
             w->a.ice->bind({ QHostAddress(QHostAddress::LocalHost) });
             w->b.ice->bind({ QHostAddress(QHostAddress::LocalHost) });
+            if (in["stun"].toBool()) {
+                // candidate gathering is asynchronous: wait until both agents advertise a server-reflexive candidate (or 1.5 s)
+                QElapsedTimer tg;
+                tg.start();
+                auto has = [](QXmppIceConnection &ice) {
+                    for (const auto &c : ice.localCandidates())
+                        if (c.type() == QXmppJingleCandidate::ServerReflexiveType) return true;
+                    return false;
+                };
+                while (tg.elapsed() < 1500 && !(has(*w->a.ice) && has(*w->b.ice))) QCoreApplication::processEvents(QEventLoop::AllEvents | QEventLoop::WaitForMoreEvents, 5);
+            }
             w->portA = hostPort(*w->a.ice);
             w->portB = hostPort(*w->b.ice);
             w->relayA.bind(QHostAddress(QHostAddress::LocalHost), quint16(0));
@@ -152,6 +190,7 @@ int main(int argc, char **argv)
             out["a"] = QJsonObject { { "user", w->a.ice->localUser() }, { "password", w->a.ice->localPassword() }, { "port", int(w->portA) }, { "candidates", cands(*w->a.ice) } };
             out["b"] = QJsonObject { { "user", w->b.ice->localUser() }, { "password", w->b.ice->localPassword() }, { "port", int(w->portB) }, { "candidates", cands(*w->b.ice) } };
             out["attackerPort"] = int(w->attacker.localPort());
+            out["stunRequests"] = w->stunRequests;
             out["relayPortSeenByA"] = int(w->relayA.localPort());
             out["relayPortSeenByB"] = int(w->relayB.localPort());
         } else if (op == "run" && w) {
